@@ -402,6 +402,21 @@ impl Property for C15 {
             _ => {
                 // random
                 let mut pool: Vec<AssetClass> = vec![AssetClass::Naked];
+                if idx % 3 == 0 {
+                    // classes over a two-letter alphabet with policy and name of 0..2 bytes: different classes
+                    // whose policy ++ name concatenations, lengths or bytes coincide (Defined("ab","c") /
+                    // Defined("a","bc") / Named("abc"), Defined(p,"") / Named(p)) - anything that identifies a
+                    // class by less than (kind, policy, name) merges them
+                    ctx.count("feature/colliding-class-family");
+                    for _ in 0..4 {
+                        let mut word = |rng: &mut Rng| -> Vec<u8> { (0..rng.usize(3)).map(|_| b'a' + rng.below(2) as u8).collect() };
+                        let (p, n) = (word(rng), word(rng));
+                        pool.push(match rng.below(3) {
+                            0 => AssetClass::Named([p, n].concat()),
+                            _ => AssetClass::Defined(p, n),
+                        });
+                    }
+                }
                 for _ in 0..3 {
                     let pl = *rng.pick(&[0usize, 1, 28, 28, 28, 32, 40]);
                     let nl = *rng.pick(&[0usize, 1, 4, 8, 32, 40]);
